@@ -189,15 +189,21 @@ def gen_unwraps(rng=None, n_random=0):
     sid = [5000]
     # random enums whose explicit discriminants are packed into the range the automatic ones use (any order, before or
     # after automatic variants): every variant must keep a tag of its own, so #unwrap(e, Vj) faults iff the value is not Vj
-    for k in range(n_random):
-        nv = rng.range(2, 6)
-        style = rng.pick(["packed", "packed", "packed_all", "auto"])
+    # fixed shapes first: automatic variants whose natural value and one or two successors are claimed explicitly by later
+    # (or earlier) variants, then random ones
+    fixed = [[None, 0, 1], [None, 1, 0], [None, None, 1, 2], [2, None, 3, 4], [None, 0, 1, 2], [1, 2, None, 3, None], [None, 1, None, 2, 3]]
+    for k in range(len(fixed) + n_random):
+        shape = fixed[k] if k < len(fixed) else None
+        nv = len(shape) if shape else rng.range(2, 6)
+        style = "fixed" if shape else rng.pick(["packed", "packed", "packed_all", "auto"])
         packed = rng.sample(list(range(0, nv + 2)), nv)
         parts, mks = [], []
         for i in range(nv):
             pl = rng.pick([None, "i64", "i64", "u8"])
             disc = ""
-            if (style == "packed" and rng.chance(1, 2)) or (style == "packed_all" and i > 0):
+            if shape:
+                disc = f" | {shape[i]}" if shape[i] is not None else ""
+            elif (style == "packed" and rng.chance(1, 2)) or (style == "packed_all" and i > 0):
                 disc = f" | {packed[i]}"
             parts.append(f"V{i}" + (f": {pl}" if pl else "") + disc)
             val = 100 * (k + 1) + i
